@@ -1,4 +1,4 @@
-import Nstd.Str.LemmasOps
+import Nstd.Str.LemmasNew
 /-!
   One step of the line protocol (`step`): for every operation the effect is confined to the
   target variable, and for the operations `Spec.newVal` specifies the new value is the specified one.
@@ -374,6 +374,76 @@ theorem step_ok {s s' : St} (g : Good s) {op : Op} (e : step s op = some s') : S
       simp only [Option.map_eq_some_iff] at e
       obtain ⟨⟨s2, r⟩, e, rfl⟩ := e
       exact ok_of (eff_printf h V.1 e) (by intro x hx; simp only [Spec.newVal, Option.some.injEq] at hx; exact hx)
+    · cases e
+  | plusEqS v w =>
+    simp only [step] at e
+    split at e
+    · rename_i c; have V := valid_facts c.1
+      exact ok_of (eff_appendS h V.1 e) (by intro x hx; simp only [Spec.newVal, Option.some.injEq] at hx; exact hx)
+    · cases e
+  | plusEqC v ch =>
+    simp only [step] at e
+    split at e
+    · rename_i c; have V := valid_facts c
+      exact ok_of (eff_appendC h V.1 e) (by intro x hx; simp only [Spec.newVal, Option.some.injEq] at hx; exact hx)
+    · cases e
+  | plus v a b =>
+    simp only [step] at e
+    split at e
+    · rename_i c; have V := valid_facts c.1; have Vb := valid_facts c.2.2
+      exact ok_of (eff_plusS h V.1 V.2.2.2.2.1 V.2.2.2.2.2.1 V.2.1 V.2.2.1 (by omega) Vb.2.1
+          (T _ (Nat.le_refl _)) (T _ (by omega)) e)
+        (by intro x hx; simp only [Spec.newVal, Option.some.injEq] at hx; exact hx)
+    · cases e
+  | plusLit v a r len =>
+    simp only [step] at e
+    split at e
+    · rename_i c; have V := valid_facts c.1; have Va := valid_facts c.2.1
+      exact ok_of (eff_plusLit h V.1 V.2.2.2.2.1 V.2.2.2.2.2.1 V.2.2.2.2.2.2 V.2.1 V.2.2.1 V.2.2.2.1 (by omega) (by omega)
+          (by omega) Va.2.2.2.1 (T _ (Nat.le_refl _)) (T _ (by omega)) (T _ (by omega)) c.2.2 e)
+        (by intro x hx; simp only [Spec.newVal, Option.some.injEq] at hx; exact hx)
+    · cases e
+  | fromCStr v src =>
+    simp only [step] at e
+    split at e
+    · rename_i c; have V := valid_facts c
+      exact ok_of (eff_fromCStr h V.1 V.2.2.2.2.1 V.2.1 (T _ (Nat.le_refl _)) e)
+        (by intro x hx; simp only [Spec.newVal, Option.some.injEq] at hx; exact hx)
+    · cases e
+  | fromCStrN v src =>
+    simp only [step] at e
+    split at e
+    · rename_i c; have V := valid_facts c
+      exact ok_of (eff_assignTemp h V.1 V.2.2.2.2.1 V.2.1 (T _ (Nat.le_refl _)) e)
+        (by intro x hx; simp only [Spec.newVal, Option.some.injEq] at hx; exact hx)
+    · cases e
+  | fromBool v b =>
+    simp only [step] at e
+    split at e
+    · rename_i c; have V := valid_facts c
+      exact ok_of (eff_fromBool h V.1 e)
+        (by intro x hx; simp only [Spec.newVal, Option.some.injEq] at hx; exact hx)
+    · cases e
+  | fromD v x =>
+    simp only [step] at e
+    split at e
+    · rename_i c; have V := valid_facts c
+      exact ok_of (eff_fromFmt h V.1 V.2.2.2.2.1 V.2.1 (T _ (Nat.le_refl _)) e)
+        (by intro x hx; simp only [Spec.newVal, Option.some.injEq] at hx; exact hx)
+    · cases e
+  | fromU v x =>
+    simp only [step] at e
+    split at e
+    · rename_i c; have V := valid_facts c
+      exact ok_of (eff_fromFmt h V.1 V.2.2.2.2.1 V.2.1 (T _ (Nat.le_refl _)) e)
+        (by intro x hx; simp only [Spec.newVal, Option.some.injEq] at hx; exact hx)
+    · cases e
+  | fromPrintf v f =>
+    simp only [step] at e
+    split at e
+    · rename_i c; have V := valid_facts c
+      exact ok_of (eff_fromPrintf h V.1 V.2.2.2.2.1 V.2.1 (T _ (Nat.le_refl _)) e)
+        (by intro x hx; simp only [Spec.newVal, Option.some.injEq] at hx; exact hx)
     · cases e
 
 end Nstd.Str
